@@ -1,3 +1,3 @@
 #include "vh.h"
-extern const struct vh_driver drv_load, drv_stream, drv_ser, drv_hist, drv_fault, drv_float, drv_utf8, drv_ro, drv_thr, drv_nest, drv_arith;
-const struct vh_driver* const vh_drivers[] = {&drv_load, &drv_stream, &drv_ser, &drv_hist, &drv_fault, &drv_float, &drv_utf8, &drv_ro, &drv_thr, &drv_nest, &drv_arith, NULL};
+extern const struct vh_driver drv_load, drv_stream, drv_ser, drv_hist, drv_fault, drv_float, drv_utf8, drv_ro, drv_thr, drv_nest, drv_arith, drv_idiom;
+const struct vh_driver* const vh_drivers[] = {&drv_load, &drv_stream, &drv_ser, &drv_hist, &drv_fault, &drv_float, &drv_utf8, &drv_ro, &drv_thr, &drv_nest, &drv_arith, &drv_idiom, NULL};
